@@ -14,7 +14,8 @@
 (*   host, upgrade, connection, wsversion, key:                            *)
 (*     "absent" | "ok" | "varied" (case / blanks / token inside a list)    *)
 (*     | "dup" (twice, same valid value) | "wrong" | key only: "len23",    *)
-(*     "len25", "empty", "nonb64" (24 characters that are not base64:      *)
+(*     "len25", "empty", "latebad", "earlybad" (a second, ill-sized key     *)
+(*     line), "nonb64" (24 characters that are not base64:                  *)
 (*     open) | wsversion only: "other" (a different number)                *)
 (* cfg: reject in "none" | "onrequest" | "onhost" | "onheader" | "onbefore"*)
 (*      | "negotiate", rejectStatus (0 = plain error -> 500)               *)
@@ -44,7 +45,9 @@ Problems(req) ==
       \cup (IF req.host \notin Good \/ req.upgrade \notin Good \/ req.connection \notin Good THEN {400} ELSE {})
       \cup (IF req.wsversion = "absent" THEN {400} ELSE {})
       \cup (IF req.wsversion \in {"wrong", "other"} THEN {426} ELSE {})
-      \cup (IF req.key \in {"absent", "len23", "len25", "empty"} THEN {400} ELSE {})
+      \* ("latebad" / "earlybad": a valid key plus another Sec-WebSocket-Key line that is not 24 characters
+      \*  long, after / before all other headers - a key that is not 24 characters long is always refused)
+      \cup (IF req.key \in {"absent", "len23", "len25", "empty", "latebad", "earlybad"} THEN {400} ELSE {})
 
 \* a Sec-WebSocket-Protocol value that breaks the token-list grammar before any acceptable token:
 \* refused (RFC 6455 4.2.2 /1) by an upgrader that looks at the header, i.e. has a selector
